@@ -131,6 +131,15 @@ example : tryNewRetry { addr := fun x => x } (.seq [.mutex 3, .mutex 1, .retry (
 example : tryNewSorted { addr := fun x => 9 - x } (.seq [.mutex 3, .mutex 1, .retry (.seq [.mutex 2, .mutex 0])]) = true := by
   rw [C07_sorted_check_is_exact]; decide
 
+-- @theorem C07_finding_D9_zero_sized_units_alias : (negative witness, recorded finding D9) the exactness theorems above assume that distinct units have distinct addresses; two empty owned collections are zero-sized and may share one address — then the model, like the real constructors (harness bin/zst), rejects an input in which no lock is reachable twice (it contains no lock at all)
+theorem C07_finding_D9_zero_sized_units_alias :
+    tryNewSorted { addr := fun x => x } (.seq [.owned 5 (.seq []), .owned 5 (.seq [])]) = false ∧
+    tryNewRetry { addr := fun x => x } (.seq [.owned 5 (.seq []), .owned 5 (.seq [])]) = false ∧
+    declLeaves (.seq [.owned 5 (.seq []), .owned 5 (.seq [])]) = [] := by
+  refine ⟨?_, ?_, rfl⟩
+  · simp [tryNewSorted, getPtrs, getPtrsL, sortPtrs, adjacentDup, List.mergeSort]
+  · simp [tryNewRetry, getPtrs, getPtrsL, seenDup]
+
 /-! ### the compile-time half, over the fact table regenerated from the source -/
 section
 open HLV.Static HLV.Gen
